@@ -405,6 +405,19 @@ func (envs *Manager) CreateEnvironment(workflowPath string, userVars map[string]
 		WithField("level", infologger.IL_Devel).
 		Debug("envman write lock")
 	envs.mu.Lock()
+	// Environments registered since the query at the top of this function are only visible now: the exclusion
+	// check is repeated atomically with the registration, otherwise two concurrent creations both pass it.
+	for _, other := range envs.m {
+		if other.workflow == nil {
+			continue
+		}
+		for det := range other.GetActiveDetectors() {
+			if _, contains := neededDetectors[det]; contains {
+				envs.mu.Unlock()
+				return env.id, fmt.Errorf("detector %s is already in use", det.String())
+			}
+		}
+	}
 	envs.m[env.id] = env
 	envs.pendingStateChangeCh[env.id] = env.stateChangedCh
 	envs.mu.Unlock()
